@@ -93,6 +93,9 @@ REFACTORS = [
     ('r-deselect-reformulated', ['C04', 'C11'], SEL,
      '        if (!clientSelect.has_value()) return log.Warning("Unexpected, claim already released.");\n        if (clientSelect.value().get().identifier != identifier) return log.Warning("Client " + identifier + " does not hold the claim -> ignoring its release.");\n\n        // Let go of the client\n        clientSelect.reset();',
      '        if (clientSelect.has_value() && clientSelect->get().identifier == identifier) clientSelect.reset();\n        else log.Warning("nothing to release for " + identifier);', 0),
+    ('r-select-inside-dispatcher-closure', ['C04', 'C11', 'C02'], PROC,
+     "[f'const auto r = {port.accessor_target}.Arbitered().in.{event.name}({call_arguments});',\n         f'if (r == {fqn_reply}) {port.accessor_target}.Select(identifier);',\n         'return r;'])",
+     "[f'return dzn::shell(m_dispatcher, [&] {{',\n         f'    const auto r = m_encapsulee.{port.name}.in.{event.name}({call_arguments});',\n         f'    if (r == {fqn_reply}) {port.accessor_target}.Select(identifier);',\n         '    return r;',\n         '});'])", 0),
     ('r-support-header-comment', ['C12', 'C08'], 'support_files/ilog.py', 'Description: interfaces for logging informationals, warnings and errors.', 'Description: logging interfaces (info, warning, error).', 0),
     ('r-overview-wording', ['C08', 'C12'], 'adv_shell/__init__.py', "'User configuration:',", "'Configuration given by the user:',", 0),
     ('r-process-resets-in-place', ['C16'], 'json_ast.py', "        self._file_contents = FileContents()\n        root = parse_root(self.ast)",
